@@ -27,14 +27,15 @@ fn cut_inside_multibyte(bytes: &[u8], cut: usize) -> bool {
 pub fn run(args: &Args, rep: &mut Report) {
     let mut rng = args.rng(18);
     let mut models: Vec<(String, String)> = Vec::new();
-    if args.shard == 0 {
-        models.extend(crate::sermodels::feature_docs());
+    if args.shard == 0 || args.miri() {
+        // (inside the Miri interpreter: one seed-dependent feature document per process, cuts and fault positions sampled)
+        models.extend(crate::sermodels::feature_docs().into_iter().enumerate().filter(|(i, _)| args.keep(*i + args.shard, 6)).map(|(_, m)| m));
     }
     let n = args.scale(3, 60);
     for (name, d) in crate::sermodels::generated(&mut rng, n, args.thorough()) {
         models.push((name, d.to_xml()));
     }
-    rep.exhaustive = Some(true);
+    rep.exhaustive = Some(!args.miri());
     rep.notes.push("per image every prefix length 0..n-1 and every position of a failing / short / interrupted write call is enumerated (exhaustive per image); the images themselves are a sample".to_string());
     for (name, xml) in &models {
         let fsm = match parse_xml(xml) {
@@ -96,6 +97,9 @@ pub fn run(args: &Args, rep: &mut Report) {
         let mut ok_accepted: Vec<usize> = Vec::new();
         let mut panics: Vec<(usize, String)> = Vec::new();
         for cut in 0..image.len() {
+            if !args.keep(cut, 5) {
+                continue;
+            }
             rep.evaluations += 1;
             match read_model(&image[..cut]) {
                 ReadOutcome::Err(_) => {
@@ -108,7 +112,7 @@ pub fn run(args: &Args, rep: &mut Report) {
                 rep.nontrivial_key(&format!("{}:{}", name, cut));
             }
         }
-        rep.count("prefixes_tried", image.len() as u64);
+        rep.count("prefixes_tried", (0..image.len()).filter(|c| args.keep(*c, 5)).count() as u64);
         if !ok_accepted.is_empty() {
             let c = ok_accepted[ok_accepted.len() / 2];
             rep.violation(
@@ -135,6 +139,9 @@ pub fn run(args: &Args, rep: &mut Report) {
         let k = reference.calls;
         rep.count("write_calls_per_image_total", k as u64);
         for i in 0..k {
+            if !args.keep(i, 7) {
+                continue;
+            }
             let faults = [
                 WriteFault::FailAt(i),
                 WriteFault::InterruptAt(i),
